@@ -1351,6 +1351,8 @@ class XMLSchemaBase(XsdValidator, ElementPathMixin[Union[SchemaType, XsdElement]
 
                     # Clear identity constraints counters
                     for k, e in enumerate(xsd_ancestors[k:], start=k):
+                        if not isinstance(e, XsdElement):
+                            continue  # an ancestor matched by a wildcard has no identities
                         for identity in e.identities:
                             if identity in identities:
                                 identities[identity].reset(ancestors[k])
